@@ -213,6 +213,14 @@ func wirePhase(c *ctx, n int) {
 	defer log.SetOutput(logw)
 
 	here := netip.AddrFrom4([4]byte{127, 0, 0, 1})
+	// after the sweep, runs of six calls share ONE client (a history on the real driver: what a failed or unanswered
+	// call leaves behind must not show in the next one)
+	var keepU uhppote.IUHPPOTE
+	var keepPT *passThrough
+	var keepG cfgGen
+	var keepDev uint32
+	var keepMode string
+	var keepDebug bool
 	for i := 0; i < n; i++ {
 		op := opDefs[r.Intn(len(opDefs))]
 		dev := rng.Pick(r, uint32(405419896), 303986753, 1, 0xff000000, 0xffffffff, r.U32())
@@ -224,6 +232,10 @@ func wirePhase(c *ctx, n int) {
 		sweep := i < 6*len(opDefs) // every operation x every path x debug flag on / off at least once
 		if sweep {
 			mode = []string{"broadcast", "udp", "tcp"}[(i/len(opDefs))%3]
+		}
+		reuse := !sweep && (i-6*len(opDefs))%6 != 0 && keepU != nil
+		if reuse {
+			dev, mode = keepDev, keepMode
 		}
 		switch mode {
 		case "broadcast":
@@ -239,6 +251,9 @@ func wirePhase(c *ctx, n int) {
 			g.toks = append(g.toks, fmt.Sprintf("dev=%d;beta;127.0.0.1:%d;%s", dev, s.port, mode))
 		}
 		debug := r.Bool()
+		if reuse {
+			g, debug = keepG, keepDebug
+		}
 		// the timeout is generous (a loaded machine must not turn an answered call into a failed one), so only a
 		// few calls go unanswered
 		focus := rng.Pick(r, "valid", "valid", "valid", "valid", "valid", "valid", "mutated", "mutated")
@@ -268,10 +283,17 @@ func wirePhase(c *ctx, n int) {
 		echoAdjust(op.name, argToks, arrivals)
 
 		var pt *passThrough
-		bind := types.BindAddrFrom(netip.MustParseAddr("0.0.0.0"), 0)
-		listen := types.ListenAddrFrom(netip.MustParseAddr("0.0.0.0"), 60001)
-		u := uhppote.VerifNew(bind, g.broadcast, listen, 1500*time.Millisecond, g.devices, debug,
-			func(inner uhppote.VerifDriver) uhppote.VerifDriver { pt = &passThrough{inner: inner}; return pt })
+		var u uhppote.IUHPPOTE
+		if reuse {
+			u, pt = keepU, keepPT
+			pt.calls = nil
+		} else {
+			bind := types.BindAddrFrom(netip.MustParseAddr("0.0.0.0"), 0)
+			listen := types.ListenAddrFrom(netip.MustParseAddr("0.0.0.0"), 60001)
+			u = uhppote.VerifNew(bind, g.broadcast, listen, 1500*time.Millisecond, g.devices, debug,
+				func(inner uhppote.VerifDriver) uhppote.VerifDriver { pt = &passThrough{inner: inner}; return pt })
+			keepU, keepPT, keepG, keepDev, keepMode, keepDebug = u, pt, g, dev, mode, debug
+		}
 		if len(arrivals) == 1 {
 			s.script(arrivals[0])
 		} else {
